@@ -313,9 +313,21 @@ func sqlReadSection(r *tx.Rng, w *tx.W, size int, opt map[string]string) {
 			}
 		}
 	}
-	toks := []string{"SR", tx.Int(precision), tx.Int(failRow), "C", tx.Int(ncols)}
+	// a coercion that names a column the result set does not have (an invalid argument: it must be reported)
+	ghost, ghostKind := "", 0
+	if r.P(1, 12) {
+		ghost, ghostKind = r.Pick([]string{"nosuch", "A", "ab"}), 1+r.Intn(2)
+	}
+	nC := ncols
+	if ghost != "" {
+		nC++
+	}
+	toks := []string{"SR", tx.Int(precision), tx.Int(failRow), "C", tx.Int(nC)}
 	for c := range names {
 		toks = append(toks, tx.HexS(names[c]), tx.Int(coerce[c]))
+	}
+	if ghost != "" {
+		toks = append(toks, tx.HexS(ghost), tx.Int(ghostKind))
 	}
 	toks = append(toks, "N")
 	toks = append(toks, nameToks(names)...)
@@ -349,6 +361,13 @@ func sqlReadSection(r *tx.Rng, w *tx.W, size int, opt map[string]string) {
 				pairs = append(pairs, qsql.CoercePair{Column: names[c], Type: qsql.Int64ToBool})
 			case 2:
 				pairs = append(pairs, qsql.CoercePair{Column: names[c], Type: qsql.StringToFloat})
+			}
+		}
+		if ghost != "" {
+			if ghostKind == 1 {
+				pairs = append(pairs, qsql.CoercePair{Column: ghost, Type: qsql.Int64ToBool})
+			} else {
+				pairs = append(pairs, qsql.CoercePair{Column: ghost, Type: qsql.StringToFloat})
 			}
 		}
 		if len(pairs) > 0 {
